@@ -225,6 +225,13 @@ namespace {
       const auto& op = w[0];
       const auto n = w.size() - 1;
       auto need = [&](std::size_t k) { if (n != k) throw Bad{}; };
+      // a word operand is handed to the library as a VIEW into a larger buffer: the bytes that follow it are not NUL (a token
+      // sliced out of a source line), and the buffer dies with this call (the library must have copied what it keeps)
+      std::deque<std::u8string> slices;
+      auto view = [&](const std::string& hx) {
+         slices.push_back(unhex(hx) + u8"\x7f;\x7f");
+         return util::word_view(slices.back().data(), slices.back().size() - 3);
+      };
       auto types = [&](std::size_t from) {
          std::vector<const ipr::Type*> ts;
          for (std::size_t i = from; i < w.size(); ++i) ts.push_back(&h.node<ipr::Type>(w[i]));
@@ -298,11 +305,11 @@ namespace {
       if (op == "transfer_c") { need(1); return h.name(L.get_transfer_from_convention(h.cc(w[1]))); }
 
       // -- name_factory
-      if (op == "string") { need(1); return h.name(L.get_string(unhex(w[1]))); }
+      if (op == "string") { need(1); return h.name(L.get_string(view(w[1]))); }
       if (op == "identifier_s") { need(1); return h.name(L.get_identifier(h.node<ipr::String>(w[1]))); }
-      if (op == "identifier_w") { need(1); return h.name(L.get_identifier(unhex(w[1]))); }
+      if (op == "identifier_w") { need(1); return h.name(L.get_identifier(view(w[1]))); }
       if (op == "operator_s") { need(1); return h.name(L.get_operator(h.node<ipr::String>(w[1]))); }
-      if (op == "operator_w") { need(1); return h.name(L.get_operator(unhex(w[1]))); }
+      if (op == "operator_w") { need(1); return h.name(L.get_operator(view(w[1]))); }
       if (op == "suffix") { need(1); return h.name(L.get_suffix(h.node<ipr::Identifier>(w[1]))); }
       if (op == "conversion") { need(1); return h.name(L.get_conversion(h.node<ipr::Type>(w[1]))); }
       if (op == "ctor") { need(1); return h.name(L.get_ctor_name(h.node<ipr::Type>(w[1]))); }
@@ -316,10 +323,10 @@ namespace {
       if (op == "label") { need(1); return h.name(L.get_label(h.node<ipr::Identifier>(w[1]))); }
       if (op == "this") { need(1); return h.name(L.get_this(h.node<ipr::Type>(w[1]))); }
       if (op == "literal_s") { need(2); return h.name(L.get_literal(h.node<ipr::Type>(w[1]), h.node<ipr::String>(w[2]))); }
-      if (op == "literal_w") { need(2); return h.name(L.get_literal(h.node<ipr::Type>(w[1]), unhex(w[2]))); }
-      if (op == "linkage_w") { need(1); return h.name(L.get_linkage(unhex(w[1]))); }
+      if (op == "literal_w") { need(2); return h.name(L.get_literal(h.node<ipr::Type>(w[1]), view(w[2]))); }
+      if (op == "linkage_w") { need(1); return h.name(L.get_linkage(view(w[1]))); }
       if (op == "linkage_s") { need(1); return h.name(L.get_linkage(h.node<ipr::String>(w[1]))); }
-      if (op == "calling_convention") { need(1); return h.name(L.get_calling_convention(unhex(w[1]))); }
+      if (op == "calling_convention") { need(1); return h.name(L.get_calling_convention(view(w[1]))); }
 
       // -- generative factories (operands for the requests above) and the translation unit
       if (op == "unit") {
